@@ -67,3 +67,36 @@ PROPS.update({
         "min_reach": {"any": ["reach:involving-nonempty"]},
     },
 })
+
+PROPS.update({
+    "C10": {
+        "level": "exploration",
+        "rule": "seeded graphs (8 kinds x 14 families incl. many small components, long cycles, nested SCCs, isolated nodes, self-loops, parallel edges; n in 0..12 and every 6th case 13..40/60), each rebuilt 3 times with fresh hash states. connected / weakly / strongly connected components are compared with the classes of the Warshall transitive closure of get_all_edges(); number_of_connected_components, node_connected_component (every node), breadth_first_search (every start node), bfs_equal_size_partitions (every k in 1..=n+2) and the WrongMethod guards are checked. Non-trivial = n>=2; distinct = distinct graph hashes.",
+        "assumptions": COMMON,
+        "min_reach": {"any": ["reach:three-or-more-components", "reach:nontrivial-scc-structure", "guard:connected_components-on-directed", "guard:directed-components-on-undirected"]},
+    },
+    "C11": {
+        "level": "exploration",
+        "rule": "seeded single-edge graphs (directed/undirected, 14 families, n in 1..12, unweighted / exact / generic positive weights, self-loops always requested, isolated and degree-1 nodes) x {full node set, 8 random non-empty proper subsets incl. singletons}; clustering, average_clustering (count_zeros both ways), triangles, transitivity, generalized_degree and square_clustering are compared (1e-9 relative) with dense-matrix definitions (A^3 diagonal, Fagiolo, cube-root weights, Lind et al.); coefficients must lie in [0,1]; every 12th case is a multi-edge graph that must be refused with WrongMethod, directed graphs must be refused by the undirected-only functions. Non-trivial = n>=3 and >=2 edges; distinct = distinct graph hashes.",
+        "assumptions": COMMON + ["weighted graphs: self-loop weights are set to the smallest weight so that the normalising maximum is attained by a proper edge", "empty means (no counted coefficient) are not constrained", "square_clustering has no error channel: on directed graphs only C20 (no panic) applies"],
+        "min_reach": {"any": ["reach:proper-subset", "reach:graph-with-self-loops", "reach:undirected-graph-with-triangles", "guard:triangles-on-directed", "guard:clustering-on-multi"]},
+    },
+    "C12": {
+        "level": "exploration",
+        "rule": "(a) exhaustive small scope: for node sets of size 0..3 (thorough: 0..4, directed and undirected path graphs) every family of 1, 2 or 3 subsets of (nodes + one foreign name) is given to is_partition and compared with: pairwise disjoint, only graph nodes, covering; non-partitions of <=2 sets are also given to modularity, which must answer NotAPartition. (b) seeded graphs of all 8 kinds (n<=25, >=1 edge, weighted and unweighted) x random true partitions (sometimes with an empty community) x resolution in {0.25,0.5,1,1.5,2}: modularity vs Newman's formula computed from get_all_edges() (1e-9 relative); 4 near-partitions per graph (element duplicated / dropped / replaced by a foreign name / overlap and omission cancelling) must be rejected. Non-trivial = every case; distinct = distinct (graph, partition) hashes.",
+        "assumptions": COMMON + ["an empty community does not stop a family from being a partition"],
+        "min_reach": {"any": ["exhaustive:is_partition-scope-completed", "reach:near-partition:overlap-and-omission-cancel", "reach:near-partition:element-replaced-by-foreign-name", "reach:modularity-with-self-loops", "reach:parallel-edges-inside-a-community"]},
+    },
+    "C13": {
+        "level": "exploration",
+        "rule": "seeded graphs with >=1 edge: all 8 kinds, G(n,p)/paths/cycles/cliques/..., rings of 3..14 cliques (every 200th case 40..100 cliques, n up to 400) and directed cycles/paths; unweighted and exact weights; seeds 0..999, resolution in {0.3,0.7,1,1.5,2}, threshold in {0,1e-7,1e-2,0.5}. louvain_partitions runs under a logical step budget (sweeps <= 200+20n, level iterations <= n+8, counted by the verif-hooks tick at the top of both loops); every level must be a partition into non-empty sets, a coarsening of the previous level, and on single-edge graphs modularity (oracle, same flag and resolution) must not decrease from the singleton partition onwards; louvain_communities must equal the last level. Non-trivial = every run; distinct = distinct (graph, options) hashes.",
+        "assumptions": COMMON + ["hook: verif_hooks::tick in the Louvain sweep and level loops; termination is decided as bounded progress on logical steps, the wall clock is never a verdict", "modularity monotonicity is checked with absolute slack 1e-9"],
+        "min_reach": {"any": ["reach:two-or-more-levels", "reach:three-or-more-levels", "reach:directed-run", "reach:multi-edge-run", "reach:self-loop-run"]},
+    },
+    "C18": {
+        "level": "exploration",
+        "rule": "seeded single-edge graphs (directed/undirected, 14 families incl. bipartite/periodic graphs, DAGs and edgeless graphs, n in 1..25/40, unweighted / exact / generic / zero-containing non-negative weights, self-loops) x tolerance in {1e-12,1e-9,1e-6,1e-3,1e-2} x max_iter in {1,2,5,100,1000,k*-1,k*,k*+1} where k* is the iteration at which an independent dense implementation of the documented update meets the documented criterion. Ok results: one entry per node, non-negative, |norm-1|<=1e-9, one more documented step moves the vector by <= 2*sqrt(n)*||I+A^T||_F*n*tol, and max_iter >= k*; Err results: kind PowerIterationFailedConvergence and max_iter < k* (cases where the criterion is within 1e-6 relative of the threshold are skipped as ambiguous). Non-trivial = n>=2 and >=1 edge; distinct = distinct (graph, weighted, tolerance) hashes.",
+        "assumptions": COMMON + ["the documented iteration (start vector 1/n, update x + A^T x, L2 normalisation, L1 change < n*tol) is the reference for the convergence contract"],
+        "min_reach": {"any": ["reach:converged", "reach:exhausted-max_iter", "reach:self-loops"]},
+    },
+})
